@@ -194,7 +194,7 @@ fn parse_args<E: Engine>() -> Args {
         start: 0,
         stride: 1,
         state_file: None,
-        dump: None,
+        dump: std::env::var("VERIF_DUMP").ok().filter(|s| !s.is_empty()).map(PathBuf::from),
         max_cases: std::env::var("VERIF_MAX_CASES").ok().and_then(|s| s.parse().ok()),
         file: None,
         no_evidence: false,
@@ -695,6 +695,15 @@ fn batch<E: Engine>(args: &Args) -> i32 {
     for (key, f) in &found {
         if let Some((_, _, what)) = kf.known.iter().find(|(p, k, _)| p == &args.property && k == key) {
             println!("KNOWN-FINDING: property={} key={} {}", args.property, key, what);
+            // keep an (unminimised) replay of the first occurrence next to the others
+            let dir = verif_root().join("replays").join(&args.property);
+            let _ = std::fs::create_dir_all(&dir);
+            let replay = json!({
+                "property": args.property, "engine": E::name(), "build": f.tag, "tier": args.tier.name(), "verif_seed": args.seed,
+                "case_index": f.index, "case_seed": f.case_seed, "finding_key": key, "known_finding": true,
+                "violation": {"key": f.violation.key, "detail": f.violation.detail}, "case": f.case,
+            });
+            let _ = std::fs::write(dir.join(format!("known-{}.json", sanitise(key))), serde_json::to_string_pretty(&replay).unwrap());
             known_lines.push(json!({"key": key, "what": what, "occurrences": key_counts.get(key).copied().unwrap_or(1)}));
             continue;
         }
@@ -770,7 +779,7 @@ fn batch<E: Engine>(args: &Args) -> i32 {
         "[{}] evaluations={} executions={} distinct_nontrivial={} steps={} digest={:016x} explore_s={:.1} wall_s={:.1} violations={} known={}",
         E::name(), agg.evals, agg.executions, nontrivial.len(), agg.steps, agg.digest, explore_s, wall, violation_records.len(), known_lines.len()
     );
-    if !args.no_evidence {
+    if !args.no_evidence && args.dump.is_none() {
         let mut samples = agg.samples.clone();
         if samples.is_empty() && total > 0 {
             let cs = case_seed(args.seed, E::engine_id(), 0);
